@@ -103,8 +103,52 @@ def _snap(x, depth=0):
     return None
 
 
+LAYOUT_TWIN = False  # set per clause by run_one (Clause.layout_twin)
+LAYOUT: list = []    # filled by call(): function names whose result changed when array arguments were passed column-major
+
+
+def _fortran(x, depth=0):
+    """Column-major twin of an argument: same values, different memory layout (returns (twin, changed))."""
+    import numpy as np
+
+    if isinstance(x, np.ndarray) and x.ndim == 2 and min(x.shape) > 1 and not x.flags.f_contiguous:
+        return np.asfortranarray(x), True
+    if isinstance(x, list) and depth < 3 and len(x) <= 64:
+        ys = [_fortran(v, depth + 1) for v in x]
+        if any(c for _, c in ys):
+            return [y for y, _ in ys], True
+    return x, False
+
+
+def _equalish(a, b, depth=0) -> bool:
+    import numpy as np
+
+    if isinstance(a, np.ndarray) or isinstance(b, np.ndarray):
+        try:
+            a, b = np.asarray(a), np.asarray(b)
+            if a.shape != b.shape:
+                return False
+            if a.dtype == object or b.dtype == object:
+                return all(x == y for x, y in zip(a.ravel().tolist(), b.ravel().tolist()))
+            return bool(np.allclose(a, b, rtol=1e-9, atol=1e-11, equal_nan=True))
+        except Exception:  # noqa: BLE001
+            return True
+    if isinstance(a, (list, tuple)) and isinstance(b, (list, tuple)) and depth < 4:
+        return len(a) == len(b) and all(_equalish(x, y, depth + 1) for x, y in zip(a, b))
+    if isinstance(a, (bool, int, float, complex)) and isinstance(b, (bool, int, float, complex)):
+        try:
+            return bool(np.isclose(a, b, rtol=1e-9, atol=1e-11, equal_nan=True))
+        except Exception:  # noqa: BLE001
+            return True
+    return True  # objects we cannot compare (expressions, generators, game objects) are not judged
+
+
 def call(fn: Callable, *a, **k):
     """Call toqito; returns (value, None) or (None, exception).
+
+    When the clause opts in (Clause.layout_twin) the call is repeated with every 2-D array argument passed column-major
+    (np.asfortranarray): the same mathematical input must give the same result; a difference is recorded in LAYOUT and
+    becomes a violation with site '<fn>:memory_layout'.
 
     Every ndarray / list argument is snapshotted before the call and compared afterwards: a function that modifies its
     caller's arguments is recorded in ALIASING and the engine turns the case into a violation with site '<fn>:aliasing'.
@@ -117,6 +161,16 @@ def call(fn: Callable, *a, **k):
     for (key, snap), v in zip(before, list(a) + list(k.values())):
         if snap is not None and _snap(v) != snap:
             ALIASING.append((getattr(fn, "__name__", repr(fn)), key))
+    if LAYOUT_TWIN and out[1] is None:
+        a2 = [_fortran(v) for v in a]
+        k2 = {n: _fortran(v) for n, v in k.items()}
+        if any(c for _, c in a2) or any(c for _, c in k2.values()):
+            try:
+                twin = fn(*[v for v, _ in a2], **{n: v for n, (v, _) in k2.items()})
+                if not _equalish(out[0], twin):
+                    LAYOUT.append(getattr(fn, "__name__", repr(fn)))
+            except Exception as e:  # noqa: BLE001
+                LAYOUT.append(getattr(fn, "__name__", repr(fn)) + " raised " + type(e).__name__)
     return out
 
 
@@ -152,6 +206,7 @@ class Clause:
     doc: str = ""
     probe: int = 4  # number of leading cases re-executed by the determinism probe
     chunk: int = 0  # cases per work item (0: automatic)
+    layout_twin: bool = False  # repeat every toqito call with column-major array arguments and require the same result
     alphabets: Callable[[str, int], dict] | None = None
     weight: float = 0.0  # rough seconds per case (scheduling hint: heavy clauses first)
 
@@ -183,10 +238,16 @@ def _run_chunk(pid: str, clause_name: str, items: list) -> list:
 
 
 def run_one(clause: Clause, case: dict) -> dict:
+    global LAYOUT_TWIN
     t0 = time.time()
     del ALIASING[:]
+    del LAYOUT[:]
+    LAYOUT_TWIN = bool(clause.layout_twin)
     try:
         res = clause.check(case)
+        if LAYOUT and isinstance(res, dict) and res.get("status") != VIOL:
+            res = viol(f"{LAYOUT[0]}: result depends on the memory layout of an array argument (row-major vs column-major copy of the same values)",
+                       site=f"{LAYOUT[0].split()[0]}:memory_layout", observed=LAYOUT[:4])
         if ALIASING and isinstance(res, dict) and res.get("status") != VIOL:
             fname, key = ALIASING[0]
             res = viol(f"{fname} modified its caller's argument {key!r} (array / list passed by reference)", site=f"{fname}:aliasing",
